@@ -22,6 +22,34 @@ CHECKS = {
         "fusing with an LF across an edit boundary is excluded by construction (ambiguous between conforming clients).",
         "DESIGN.md §3 C02",
     ),
+    "C03": (
+        "exploration",
+        "Hypothesis mutational + grammar (statement-soup) fuzzing with a totality/termination oracle in an isolated worker; ddmin minimisation; Atheris campaign in the thorough tier",
+        "Every generated text (mutated corpus files, statement soup cut mid-token) is indexed as .F90/.f90/.f directly "
+        "and through didOpen/didChange/initialize of a real server, inside a child process whose CPU time is bounded; "
+        "any exception, refusal message, hang (>10 s CPU) or unqueryable index is a violation, collected per root cause "
+        "and minimised.",
+        "Documents up to ~300 lines; 'bounded time' is decided with a generous CPU bound, so slow-but-finite behaviour below it is not flagged.",
+        "DESIGN.md §3 C03",
+    ),
+    "C08": (
+        "exploration",
+        "bounded exhaustive enumeration of conditional skeletons + Hypothesis trees, differential against a reference C preprocessor (itself cross-checked with GNU cpp)",
+        "Active-line sets, executed #define/#undef lines, the final macro table, expanded text of active lines and the set of "
+        "indexed marker declarations are compared with harness/ppref.py for every enumerated skeleton and every generated tree / macro case.",
+        "Trusts harness/ppref.py (validated against GNU cpp -P on a sample of the same cases in every run). Domain excludes "
+        "redefinition without #undef, macros in macro bodies/strings/comments. Expansions are compared modulo blanks.",
+        "DESIGN.md §3 C08",
+    ),
+    "C16": (
+        "exploration",
+        "Hypothesis round-trip / differential testing against an independent LSP frame codec, drawn read-chunk schedules, real-pipe sessions",
+        "Messages written by the server's connection object are re-read by an independent strict reader; framed streams from an "
+        "independent writer (either header order, raw UTF-8 or escaped bodies, drawn chunk sizes) must decode to the messages sent; "
+        "URIs round-trip; a few python -m fortls sessions over real pipes with non-ASCII paths and identifiers.",
+        "Trusts harness/lsp.py's codec; no lone surrogates; paths absolute and normalised.",
+        "DESIGN.md §3 C16",
+    ),
 }
 
 NOT_YET = "check not built yet in this session (work in progress; see DESIGN.md §3 for the planned generator and oracle)"
